@@ -48,11 +48,11 @@ Theorem jsc_genname_matches_source (v : bstr) (st : jstate) :
   let '(n', g) := src_soyjs_scope_genname (Z.of_N (j_n st)) v in
   jsc_genname v st = Ok (g, set_scope (j_scope st) (Z.to_N n') st) /\ n' = Z.of_N (j_n st + 1).
 Proof.
-  intros Hs. unfold src_soyjs_scope_genname. cbv zeta.
+  intros Hs. unfold src_soyjs_scope_genname. autounfold with src_helpers. cbv zeta. cbv iota.
   rewrite st_wrap64 by (unfold st_small in Hs; lia).
   replace (Z.of_N (j_n st) + 1)%Z with (Z.of_N (j_n st + 1)) by lia.
   rewrite st_dec_of_Z_of_N, N2Z.id. split; [|reflexivity].
-  unfold jsc_genname, jbind, jget, jmod, jret, t_us. cbn. rewrite <- app_assoc. reflexivity.
+  unfold jsc_genname, jbind, jget, jmod, jret, t_us. cbn. rewrite <- ?app_assoc. reflexivity.
 Qed.
 
 Theorem jsc_bind_matches_source (v g : bstr) (st : jstate) :
